@@ -366,7 +366,7 @@ def idxSyntactic (named : Named) : Nat → IR → IR → Option (Option IR)
     | .ref r => match named.find? (·.1 == r) with
       | some (_, v) => idxSyntactic named n v index
       | none => some none
-    | .object vs _ =>
+    | .object vs ix =>
       match IR.singleStringConst index, (match IR.singleStringConst index with | some s => IR.vsGet vs s | none => none) with
       | some _, some (true, v) => some (some v)
       | _, _ =>
@@ -377,7 +377,8 @@ def idxSyntactic (named : Named) : Nat → IR → IR → Option (Option IR)
             | some s => match IR.vsGet vs s with
               | some (false, o) => go rest (acc ++ [IR.anyOf' [o, .null]])
               | some (true, r) => go rest (acc ++ [r])
-              | none => go rest acc
+              -- an undeclared key under an index signature: resolved semantically (since fix D93)
+              | none => if ix.isSome then some none else go rest acc
             | none => some none
         go u []
     | _ => some none
